@@ -80,7 +80,7 @@ CS2(h, a, inv, amount) ==
               [kind |-> "ds", hash |-> h, key |-> "att", a |-> a, mode |-> "mr", gen |-> -1,
                val |-> [st |-> "ok", inv |-> inv, amount |-> amount]]
 CLists(h, status) == [kind |-> "lists", hash |-> h, status |-> status]
-CWait(h, p) == [kind |-> "wait", hash |-> h, part |-> p, timeout |-> FALSE]
+CWait(h, p) == [kind |-> "wait", hash |-> h, part |-> p, timeout |-> -1, at |-> now]
 CPay(h, inv, amount, maxfee, maxdelay) ==
               [kind |-> "pay", hash |-> h, inv |-> inv, amount |-> amount, maxfee |-> maxfee,
                maxdelay |-> maxdelay, invamt |-> InvAmt[inv]]
